@@ -156,6 +156,8 @@ def run_one(args):
             new_v = [v["key"] for v in ctx.violations if v["key"] not in known]
             if new_v:
                 caught.append(new_v[0].split("|")[0])
+            elif ctx.deferred_errors:
+                errors.append(f"{pr}: {ctx.deferred_errors[0][:60]}")
         except AnalysisError as e:
             errors.append(f"{pr}: {str(e)[:60]}")
         except Exception as e:  # checker crash on a variant
